@@ -39,7 +39,7 @@ static uint32_t impl_hist(uint8_t i)
     CO_EMCY_HIST *h = &node.Emcy.Hist;
     int16_t sub = (int16_t)h->Off - (int16_t)i;
     if (sub < 1) { sub = (int16_t)(sub + h->Max); }
-    return v1003[(sub - 1) % H];
+    return V1003((sub - 1) % H);
 }
 static void check_state(void)
 {
@@ -101,7 +101,7 @@ void harness(void)
     e->Hist.Num = m_hn; v1003_0 = m_hn;
     e->Hist.Off = (m_hn < H) ? m_hn : (uint8_t)ND_RANGE(1, H);
 #endif
-    for (i = 0; i < H; i++) { v1003[i] = ND_U32(); }
+    for (i = 0; i < H; i++) { V1003(i) = ND_U32(); }
     for (i = 0; i < H; i++) { if (i < m_hn) { m_hist[i] = impl_hist(i); } }
     v1014 = ND_U32();
     ASSUME((v1014 & 0x7FFFF800u) == 0);             /* 11-bit identifier, valid bit free */
